@@ -7,6 +7,7 @@ fail=0
 for d in seeded/*/; do
   id=$(basename "$d")
   if [ $# -gt 0 ]; then ok=0; for p in "$@"; do case "$id" in $p*) ok=1;; esac; done; [ $ok = 1 ] || continue; fi
+  if python3 -c "import json,sys; sys.exit(0 if json.load(open('$d/meta.json')).get('obsolete') else 1)"; then echo "$id: obsolete (see meta.json)"; continue; fi
   checks=$(python3 -c "import json,sys; print(' '.join(json.load(open('$d/meta.json'))['detected_by']))")
   [ -z "$checks" ] && { echo "$id: no check recorded"; continue; }
   out=$(tools/try_mutant_iso.sh "$d/patch.diff" $checks 2>&1)
